@@ -22,6 +22,7 @@ import (
 	"os"
 	"sync"
 	"sync/atomic"
+	"syscall"
 	"time"
 
 	piondtls "github.com/pion/dtls/v3"
@@ -167,7 +168,7 @@ func start(transport string) *srv {
 			options.WithDTLSHandshakeTimeout(500*time.Millisecond))
 		s.addr = l.Addr().String()
 		s.stop = func() { sv.Stop(); _ = l.Close() }
-		go func() { s.served <- sv.Serve(l) }()
+		go func() { s.served <- sv.Serve(&flakyListener{inner: l}) }()
 		_ = dtlsserver.DefaultConfig
 	case "tcp":
 		l, err := coapNet.NewTCPListener("tcp4", "127.0.0.1:0")
@@ -177,7 +178,7 @@ func start(transport string) *srv {
 		sv := tcp.NewServer(options.WithHandlerFunc(tcpH), options.WithErrors(onErr), options.WithOnNewConn(func(cc *tcpclient.Conn) { s.onNew(cc, cc.RemoteAddr().String()) }))
 		s.addr = l.Addr().String()
 		s.stop = func() { sv.Stop(); _ = l.Close() }
-		go func() { s.served <- sv.Serve(l) }()
+		go func() { s.served <- sv.Serve(&flakyListener{inner: l}) }()
 		_ = tcpserver.DefaultConfig
 	case "tls":
 		l, err := coapNet.NewTLSListener("tcp4", "127.0.0.1:0", &tls.Config{Certificates: []tls.Certificate{tlsCert}})
@@ -187,11 +188,29 @@ func start(transport string) *srv {
 		sv := tcp.NewServer(options.WithHandlerFunc(tcpH), options.WithErrors(onErr), options.WithOnNewConn(func(cc *tcpclient.Conn) { s.onNew(cc, cc.RemoteAddr().String()) }))
 		s.addr = l.Addr().String()
 		s.stop = func() { sv.Stop(); _ = l.Close() }
-		go func() { s.served <- sv.Serve(l) }()
+		go func() { s.served <- sv.Serve(&flakyListener{inner: l}) }()
 	}
 	_ = udpserver.DefaultConfig
 	return s
 }
+
+// flakyListener: every second Accept fails once with a transient error (EMFILE: the process is out of file descriptors for a
+// moment - connect-and-stall peers are enough to cause that) before the real accept is tried: the server goes on accepting
+type flakyListener struct {
+	inner interface {
+		AcceptWithContext(ctx context.Context) (net.Conn, error)
+		Close() error
+	}
+	n atomic.Int64
+}
+
+func (f *flakyListener) AcceptWithContext(ctx context.Context) (net.Conn, error) {
+	if f.n.Add(1)%2 == 0 {
+		return nil, &net.OpError{Op: "accept", Net: "tcp", Err: syscall.EMFILE}
+	}
+	return f.inner.AcceptWithContext(ctx)
+}
+func (f *flakyListener) Close() error { return f.inner.Close() }
 
 // ---- peers -------------------------------------------------------------------------------------------------
 type goodPeer interface {
@@ -518,7 +537,7 @@ type Got struct {
 }
 
 type DiscTrace struct {
-	DupOnWire  bool `json:"dupOnWire"` // ... although refused, it was transmitted
+	DupOnWire     bool   `json:"dupOnWire"`  // ... although refused, it was transmitted
 	DupRefused    bool   `json:"dupRefused"` // a discovery with the token of a pending one was refused
 	Op            string `json:"op"`
 	Got           []Got  `json:"got"`
